@@ -402,12 +402,13 @@ def translate_constants(repo: str, report: dict) -> str:
     return "\n".join(lines) + "\n"
 
 
-TABLECHECK = """(* TableCheck.v — the tables and constants regenerated from the Python source equal the
-   hand-written ones all theorems are proved about. Decided by computation. *)
+SIGCHECK = """(* SigCheck.v — names, parameter lists and membership lists regenerated from the Python source equal the
+   hand-written ones (the part of the tables that parsing, building and writing depend on). By computation. *)
 From Coq Require Import ZArith List String.
 From OSQ Require Import Num IR Construct DefaultTable DefaultGates Constants.
 
-Lemma table_ok : gen_table = hand_table. Proof. reflexivity. Qed.
+Definition entry_sig (e : gentry) : string * list (string * pkind) := (e_name e, e_params e).
+Lemma signatures_ok : map entry_sig gen_table = map entry_sig hand_table. Proof. reflexivity. Qed.
 Lemma noparam_ok : gen_noparam = hand_noparam. Proof. reflexivity. Qed.
 Lemma gate_set_ok : gen_gate_set = hand_gate_set. Proof. reflexivity. Qed.
 Lemma aliases_ok : gen_aliases = hand_aliases. Proof. reflexivity. Qed.
@@ -415,13 +416,41 @@ Lemma measures_ok : gen_measures = hand_measures. Proof. reflexivity. Qed.
 Lemma measure_set_ok : gen_measure_set = hand_measure_set. Proof. reflexivity. Qed.
 Lemma resets_ok : gen_resets = hand_resets. Proof. reflexivity. Qed.
 Lemma reset_set_ok : gen_reset_set = hand_reset_set. Proof. reflexivity. Qed.
+
+Definition source_signatures_checked : Prop :=
+  map entry_sig gen_table = map entry_sig hand_table /\\ gen_noparam = hand_noparam /\\ gen_gate_set = hand_gate_set /\\
+  gen_aliases = hand_aliases /\\ gen_measures = hand_measures /\\ gen_measure_set = hand_measure_set /\\
+  gen_resets = hand_resets /\\ gen_reset_set = hand_reset_set.
+Lemma source_signatures_ok : source_signatures_checked.
+Proof. repeat split; reflexivity. Qed.
+"""
+
+CONSTCHECK = """(* ConstCheck.v — tolerance, angle normalisation and printing precisions regenerated from the Python source
+   equal the ones of the model. By computation. *)
+From Coq Require Import ZArith List String.
+From OSQ Require Import Num IR Construct DefaultTable DefaultGates Constants.
+
 Lemma atol_ok : (gen_atol_num = 1 /\\ gen_atol_den = 10000000)%Z. Proof. split; reflexivity. Qed.
 Lemma normalize_ok : forall (T : Type) (N : Num T) (x : T), gen_normalize_angle N x = normalize_angle N x.
 Proof. reflexivity. Qed.
 Lemma precisions_ok : (gen_writer_precision = 8 /\\ gen_v1_precision = 8 /\\ gen_qs_deg_precision = 5)%Z.
 Proof. repeat split; reflexivity. Qed.
 
-(* everything the property files need in one statement *)
+Definition source_constants_checked : Prop :=
+  (gen_atol_num = 1 /\\ gen_atol_den = 10000000)%Z /\\
+  (forall (T : Type) (N : Num T) (x : T), gen_normalize_angle N x = normalize_angle N x) /\\
+  (gen_writer_precision = 8 /\\ gen_v1_precision = 8 /\\ gen_qs_deg_precision = 5)%Z.
+Lemma source_constants_ok : source_constants_checked.
+Proof. repeat split; reflexivity. Qed.
+"""
+
+TABLECHECK = """(* TableCheck.v — the DEFINITIONS of the default gates regenerated from the Python source equal the hand-written
+   table all theorems are proved about; with SigCheck and ConstCheck, everything the property files need. *)
+From Coq Require Import ZArith List String.
+From OSQ Require Import Num IR Construct DefaultTable DefaultGates Constants SigCheck ConstCheck.
+
+Lemma table_ok : gen_table = hand_table. Proof. reflexivity. Qed.
+
 Definition source_tables_checked : Prop :=
   gen_table = hand_table /\\ gen_noparam = hand_noparam /\\ gen_gate_set = hand_gate_set /\\
   gen_aliases = hand_aliases /\\ gen_measures = hand_measures /\\ gen_measure_set = hand_measure_set /\\
@@ -446,7 +475,7 @@ def main() -> int:
     report = {"fallbacks": [], "changed": []}
     for name, content in (("DefaultGates.v", translate_default_gates(repo, report)),
                           ("Constants.v", translate_constants(repo, report)),
-                          ("TableCheck.v", TABLECHECK)):
+                          ("SigCheck.v", SIGCHECK), ("ConstCheck.v", CONSTCHECK), ("TableCheck.v", TABLECHECK)):
         if write_if_changed(os.path.join(out, name), content):
             report["changed"].append(name)
     with open(os.path.join(out, "translator_report.json"), "w") as f:
